@@ -61,6 +61,22 @@ def siblings(i, j, F, objlike, rng):
         out.append({"kind": "enum", "name": f"S{i}_{j}_{tag}", "attrs": {"tag": "t", "content": "c"} if j % 2 else {}, "generics": [], "_tag": tag,
                     "variants": [{"name": "V", "shape": "named", "fields": [copy.deepcopy(pre), {"name": "f", "ty": FT, "attrs": attrs}], "attrs": {}},
                                  {"name": "U", "shape": "unit", "fields": [], "attrs": {}}]})
+    # the same type twice in one item: by name first, then inlined / flattened (its own dependencies must still be recorded)
+    out.append({"kind": "struct", "name": f"S{i}_{j}_twiceinl", "shape": "named", "attrs": {}, "generics": [], "_tag": "twiceinl",
+                "fields": [{"name": "byname", "ty": FT, "attrs": {}}, {"name": "inl", "ty": FT, "attrs": {"inline": True}}]})
+    if objlike:
+        out.append({"kind": "struct", "name": f"S{i}_{j}_twiceflat", "shape": "named", "attrs": {}, "generics": [], "_tag": "twiceflat",
+                    "fields": [{"name": "byname", "ty": FT, "attrs": {}}, {"name": "fl", "ty": FT, "attrs": {"flatten": True}}]})
+    # `as = "U"` with U DIFFERENT from the field's type, against the item whose field simply has type U, at every position
+    U = N(f"B{i}L") if not (F["k"] == "named" and F["id"] == f"B{i}L") else N(f"B{i}FL")
+    for pos in ("named", "tuple", "newtype"):
+        out += [S("asU" + pos, {"as": copy.deepcopy(U)}, shape=pos), S("isU" + pos, {}, ty=U, shape=pos)]
+    out += [S("asUvec", {"as": VEC(copy.deepcopy(U))}, VEC(FT)), S("isUvec", {}, VEC(U))]
+    for rname, eattrs in (("ext", {}), ("int", {"tag": "t"}), ("adj", {"tag": "t", "content": "c"})):
+        for tag, attrs, ty in (("asUv" + rname, {"as": copy.deepcopy(U)}, FT), ("isUv" + rname, {}, U)):
+            out.append({"kind": "enum", "name": f"S{i}_{j}_{tag}", "attrs": dict(eattrs), "generics": [], "_tag": tag,
+                        "variants": [{"name": "N", "shape": "tuple", "fields": [{"name": None, "ty": ty, "attrs": attrs}], "attrs": {}},
+                                     {"name": "M", "shape": "named", "fields": [copy.deepcopy(pre), {"name": "f", "ty": ty, "attrs": attrs}], "attrs": {}}]})
     return out, FT
 
 
@@ -120,6 +136,27 @@ def run(ctx):
             if body("as") is not None and body("as") != body("name"):
                 ctx.violation("`as = \"U\"` does not yield the binding the item would have if its field's type were U",
                               {"items": case_items, "group": gname}, {"as": g["as"][1]["decl"], "by_name": g["name"][1]["decl"]})
+            # (i') `as = "U"` (U another type) is textually the binding of the item whose field has type U, at every position
+            for tag in list(g):
+                if tag.startswith("asU"):
+                    other = "isU" + tag[3:]
+                    if other in g and body(tag) is not None and body(other) is not None and body(tag) != body(other):
+                        ctx.violation("`as = \"U\"` does not yield the binding the item would have if its field's type were U",
+                                      {"items": case_items, "group": gname, "position": tag[3:]}, {"as": g[tag][1]["decl"], "field_of_type_U": g[other][1]["decl"]})
+                    if other in g and sorted(map(tuple, g[tag][1].get("deps", []))) != sorted(map(tuple, g[other][1].get("deps", []))):
+                        ctx.violation("`as = \"U\"` does not record the dependencies the item would have if its field's type were U",
+                                      {"items": case_items, "group": gname, "position": tag[3:]}, {"as": g[tag][1].get("deps"), "field_of_type_U": g[other][1].get("deps")})
+            # (i'') every name a presentation mentions is among its recorded dependencies (inline / flatten keep the inner type's dependencies)
+            from props import tsparse
+            for tag, (pr_, r_) in g.items():
+                if "ok" in r_.get("decl", {}):
+                    d = r_["decl"]["ok"]
+                    own = d.split("=")[0].replace("type ", "").split("<")[0].strip()
+                    used = tsparse.free_names(d.split("=", 1)[1]) - {own}
+                    have = {x[0] for x in r_.get("deps", [])}
+                    if not used <= have:
+                        ctx.violation("a presentation mentions a type that is not among the item's recorded dependencies",
+                                      {"items": case_items, "group": gname, "presentation": tag}, {"decl": d, "dependencies": sorted(have), "missing": sorted(used - have)})
             # (ii) inline == by name with the reference unfolded
             for a, b in [("name", "inl"), ("tname", "tinl"), ("nname", "ninl"), ("cvecname", "cvecinl"), ("coptname", "coptinl"), ("optname", "optinl"), ("vname", "vinl")]:
                 if a in g and b in g and body(a) is not None and body(b) is not None:
